@@ -135,7 +135,25 @@ Section Main.
   Variable hchain : list N -> N.
   Variable mroot : list N -> N.
 
-  Notation createM := (create chain view cv hchain mroot).
+  (* Block::create without the filter of fix 1214e31: the steps from the half-built block on *)
+  Definition create_plain (dbg : bool) (n : node chain) (creator ts : N) (gt : option tx) (d : list tx)
+    : res block :=
+    let b0 := pre_block (v_tip (view (n_chain _ n))) (tip_hash_of chain view n) creator ts gt d in
+    create_from chain view hchain mroot dbg n b0 (cv (n_chain _ n) (n_ledger _ n) b0).
+  Notation createM := create_plain.
+  Notation createF := (create chain view cv hchain mroot).
+
+  Ltac open_create H p gt d :=
+    unfold create_plain, create_from, tip_hash_of in H;
+    match goal with Ht : v_tip _ = Some p |- _ => rewrite Ht in H end;
+    cbv zeta in H;
+    change (b_id (pre_block (Some p) (par_hash p) ?c ?t gt d)) with (par_id p + 1) in H;
+    change (b_ts (pre_block (Some p) (par_hash p) ?c ?t gt d)) with t in H;
+    change (b_prev (pre_block (Some p) (par_hash p) ?c ?t gt d)) with (par_hash p) in H;
+    change (b_creator (pre_block (Some p) (par_hash p) ?c ?t gt d)) with c in H;
+    change (b_unpaid (pre_block (Some p) (par_hash p) ?c ?t gt d))
+      with (match gt with Some _ => 0 | None => par_total_fees p end) in H;
+    change (b_txs (pre_block (Some p) (par_hash p) ?c ?t gt d)) with (opt_list gt ++ d) in H.
   Notation validateM := (validate chain view cv tx_valid gt_ok work_needed mroot).
   Notation acceptsM := (node_accepts chain view cv tx_valid gt_ok work_needed supply_ok mroot).
   Notation nodeM := (node chain).
@@ -271,14 +289,13 @@ Section Main.
     validateM dbg n true b = Ok true.
   Proof.
     intros dbg n creator ts gt drained b p Htip Hcreate cC cV Hag Hty Hfeegt Hgt Hpool Hne Hiss Hstake Hvalid Hwork.
-    unfold create in Hcreate. rewrite Htip in Hcreate. cbv zeta in Hcreate.
+    open_create Hcreate p gt drained.
     fold cC in Hcreate.
     set (C := c_econ cC) in *.
     destruct (uadd dbg (e_total_fees_new C) (e_total_fees_atr C)) as [tf| |s1] eqn:Etf; cbn [bind] in Hcreate; try discriminate.
     destruct (uadd dbg (par_treasury p) (e_total_payout_treasury C)) as [t1| |s2] eqn:Et1; cbn [bind] in Hcreate; try discriminate.
     destruct (usub dbg t1 (e_total_payout_atr C)) as [tr| |s3] eqn:Etr; cbn [bind] in Hcreate; try discriminate.
     destruct (uadd dbg (par_graveyard p) (e_total_payout_graveyard C)) as [gy| |s4] eqn:Egy; cbn [bind] in Hcreate; try discriminate.
-    cbn [b_txs pre_block b_id b_unpaid] in Hcreate.
     set (atrs := c_rebroadcasts cC) in *.
     set (fee := c_fee_tx cC) in *.
     fold (final_txs gt drained atrs fee) in Hcreate.
@@ -382,7 +399,7 @@ Section Main.
     rewrite Hvalid, Edup. reflexivity.
   Qed.
 
-  Notation bundleM := (bundle chain view cv tx_valid work_needed hchain mroot).
+  Notation bundleM := (bundle chain view cv tx_valid gt_ok work_needed hchain mroot).
   Notation can_bundleM := (can_bundle chain view work_needed).
   Notation intakeM := (add_transaction_if_validates chain tx_valid).
 
@@ -395,7 +412,7 @@ Section Main.
     /\ b_unpaid b = match gt with Some _ => 0 | None => par_total_fees p end
     /\ b_prev b = par_hash p.
   Proof.
-    intros Htip Hcreate cC. unfold create in Hcreate. rewrite Htip in Hcreate. cbv zeta in Hcreate.
+    intros Htip Hcreate cC. open_create Hcreate p gt drained.
     fold cC in Hcreate.
     destruct (uadd dbg _ _) as [tf| |s1]; cbn [bind] in Hcreate; try discriminate.
     destruct (uadd dbg _ _) as [t1| |s2]; cbn [bind] in Hcreate; try discriminate.
@@ -436,13 +453,13 @@ Section Main.
   Proof.
     intros dbg n creator m ts gt w p drained b Htip Hgate Hcache Hcreate.
     destruct (gate_inv n m ts (is_some gt) w p Htip Hgate) as (_ & _ & _ & Hneed & _).
-    unfold create in Hcreate. rewrite Htip in Hcreate. cbv zeta in Hcreate.
+    open_create Hcreate p gt drained.
     destruct (uadd dbg _ _) as [tf| |s1]; cbn [bind] in Hcreate; try discriminate.
     destruct (uadd dbg _ _) as [t1| |s2]; cbn [bind] in Hcreate; try discriminate.
     destruct (usub dbg _ _) as [tr| |s3]; cbn [bind] in Hcreate; try discriminate.
     destruct (uadd dbg _ _) as [gy| |s4]; cbn [bind] in Hcreate; try discriminate.
     destruct (dup_spend _); try discriminate.
-    injection Hcreate as <-. cbn [generate b_ts b_total_work b_txs pre_block].
+    injection Hcreate as <-. cbn [generate b_ts b_total_work b_txs].
     rewrite !map_app, !nsum_app. lia.
   Qed.
 
@@ -464,6 +481,7 @@ Section Main.
     /\ m_gts m1 = m_gts m.
   Proof.
     unfold add_transaction_if_validates. destruct (producer_only t) eqn:Ep; [intros [= <-]; auto|].
+    destruct (is_type TBlockStake t && negb (t_own t)); [intros [= <-]; auto|].
     destruct (tx_valid _ _ t); [|intros [= <-]; auto].
     intros H. destruct (add_transaction_txs dbg m t m1 H) as [[H1|[H1 H2]] H3]; split; auto.
     right. split; [exact H1|]. unfold pool_tx_ok. unfold producer_only in Ep.
@@ -476,76 +494,213 @@ Section Main.
   Lemma nsum_work_cons (t : tx) l : nsum (map t_work l) <= nsum (map t_work (t :: l)).
   Proof. cbn. unfold nsum; cbn. fold (nsum (map t_work l)). lia. Qed.
 
-  (* ---------------------------------------------------------------- bundle_block *)
-  Lemma bundle_inv dbg (n : nodeM) creator m ts gt stake order b m' p :
-    v_tip (view (n_chain _ n)) = Some p ->
-    bundleM dbg n creator m ts gt stake order = Ok (Bundled b, m') ->
-    exists w s m1,
-      can_bundleM n m ts (is_some gt) = Some w /\ stake = Some s /\ intakeM dbg n m s = Ok m1
-      /\ createM dbg n creator ts gt (drain_in order (m_txs m1)) = Ok b
-      /\ m_gts m' = m_gts m /\ m_txs m' = [].
+
+  (* ---------------------------------------------------------------- the filter of fix 1214e31 *)
+  (* the pooled transactions Block::create goes on with, given the consensus values [c0] of the
+     unfiltered half-built block *)
+  Definition kept_pool (c0 : cvrec) (d : list tx) : list tx :=
+    if is_nil (c_rebroadcasts c0) then d else filter (keepf c0) d.
+
+  Lemma filter_len_le {A} (f : A -> bool) l : (length (filter f l) <= length l)%nat.
+  Proof. induction l as [|x r IH]; cbn; [lia|]. destruct (f x); cbn; lia. Qed.
+
+  Lemma filter_length_eq {A} (f : A -> bool) l : length (filter f l) = length l -> filter f l = l.
   Proof.
-    intros Htip H. unfold bundle in H. rewrite Htip in H.
-    destruct (negb (par_ts p <? ts)); [discriminate|].
-    destruct (can_bundle _ _ _ n m ts (is_some gt)) as [w|] eqn:Eg; [|discriminate].
-    destruct stake as [s|]; [|discriminate].
-    destruct (add_transaction_if_validates _ _ dbg n m s) as [m1| |s1] eqn:Ei; cbn [bind] in H; try discriminate.
-    destruct (create _ _ _ _ _ dbg n creator ts gt _) as [b0| |s2] eqn:Ec; try discriminate.
-    injection H as <- <-. exists w, s, m1. cbn. repeat split; auto.
-    destruct (intake_txs dbg n m s m1 Ei) as [_ ->]. reflexivity.
+    induction l as [|x r IH]; cbn; [reflexivity|]. destruct (f x); cbn; intros H.
+    - f_equal. apply IH. lia.
+    - exfalso. pose proof (filter_len_le f r). lia.
   Qed.
 
-  Theorem bundle_produced_validates : forall dbg (n : nodeM) creator m ts gt stake order b m' p,
+  Lemma kept_pool_length_eq c0 d : length (kept_pool c0 d) = length d -> kept_pool c0 d = d.
+  Proof. unfold kept_pool. destruct (is_nil _); [reflexivity|apply filter_length_eq]. Qed.
+
+  Lemma keep_txs_split c0 gt d :
+    (forall g, gt = Some g -> is_type TGoldenTicket g = true) ->
+    keep_txs c0 (opt_list gt ++ d) = opt_list gt ++ kept_pool c0 d.
+  Proof.
+    intros Hgt. unfold keep_txs, kept_pool. destruct (is_nil _); [reflexivity|].
+    rewrite filter_app. f_equal. destruct gt as [g|]; cbn; [|reflexivity].
+    unfold keepf. now rewrite (Hgt g eq_refl).
+  Qed.
+
+  Lemma kept_pool_incl c0 d t : In t (kept_pool c0 d) -> In t d.
+  Proof. unfold kept_pool. destruct (is_nil _); [auto|]. intros H. apply filter_In in H. apply H. Qed.
+
+  Lemma kept_pool_forallb f c0 d : forallb f d = true -> forallb f (kept_pool c0 d) = true.
+  Proof.
+    rewrite !forallb_forall. intros H t Ht. apply H. eapply kept_pool_incl; eauto.
+  Qed.
+
+  Lemma kept_pool_count k c0 d : count_type k (kept_pool c0 d) <= count_type k d.
+  Proof. unfold kept_pool, count_type. destruct (is_nil _); [lia|apply countb_filter_le]. Qed.
+
+  (* what is left collides with no rebroadcast of the block *)
+  Lemma kept_pool_no_collision c0 d t :
+    c_rebroadcasts c0 <> [] -> In t (kept_pool c0 d) ->
+    is_type TGoldenTicket t = true \/ collides (rb_inputs c0) t = false.
+  Proof.
+    intros Hne H. unfold kept_pool in H. destruct (c_rebroadcasts c0) eqn:E; [congruence|].
+    cbn [is_nil] in H. apply filter_In in H. destruct H as [_ H]. unfold keepf in H.
+    apply orb_true_iff in H. destruct H as [H|H]; [left; exact H|right; now apply negb_true_iff].
+  Qed.
+
+  Lemma create_pre_eq (n : nodeM) creator ts gt d p :
     v_tip (view (n_chain _ n)) = Some p ->
-    bundleM dbg n creator m ts gt stake order = Ok (Bundled b, m') ->
-    forall s m1, stake = Some s -> intakeM dbg n m s = Ok m1 ->
-    let drained := drain_in order (m_txs m1) in
-    let cC := cv (n_chain _ n) (n_ledger _ n) (pre_block (Some p) (par_hash p) creator ts gt drained) in
+    (forall g, gt = Some g -> is_type TGoldenTicket g = true) ->
+    let c0 := cv (n_chain _ n) (n_ledger _ n) (pre_block (Some p) (par_hash p) creator ts gt d) in
+    let b1 := pre_block (Some p) (par_hash p) creator ts gt (kept_pool c0 d) in
+    create_pre chain view cv n creator ts gt d = (b1, cv (n_chain _ n) (n_ledger _ n) b1).
+  Proof.
+    intros Htip Hgt c0 b1. unfold create_pre, tip_hash_of. rewrite Htip. cbv zeta.
+    change (b_txs (pre_block (Some p) (par_hash p) creator ts gt d)) with (opt_list gt ++ d).
+    fold c0. rewrite (keep_txs_split c0 gt d Hgt).
+    change (set_txs (pre_block (Some p) (par_hash p) creator ts gt d) (opt_list gt ++ kept_pool c0 d)) with b1.
+    f_equal. destruct (Nat.eqb _ _) eqn:E; [|reflexivity].
+    apply Nat.eqb_eq in E. rewrite !app_length in E.
+    assert (Hk : kept_pool c0 d = d) by (apply kept_pool_length_eq; lia).
+    unfold b1. rewrite Hk. reflexivity.
+  Qed.
+
+  (* Block::create = the plain steps on the pool that is left *)
+  Lemma create_bridge dbg (n : nodeM) creator ts gt d p :
+    v_tip (view (n_chain _ n)) = Some p ->
+    (forall g, gt = Some g -> is_type TGoldenTicket g = true) ->
+    createF dbg n creator ts gt d
+    = createM dbg n creator ts gt
+        (kept_pool (cv (n_chain _ n) (n_ledger _ n) (pre_block (Some p) (par_hash p) creator ts gt d)) d).
+  Proof.
+    intros Htip Hgt. unfold create. rewrite (create_pre_eq n creator ts gt d p Htip Hgt). cbn [fst snd].
+    unfold create_plain, tip_hash_of. rewrite Htip. reflexivity.
+  Qed.
+
+  Theorem produced_validates_F : forall dbg (n : nodeM) creator ts gt drained b p,
+    v_tip (view (n_chain _ n)) = Some p ->
+    createF dbg n creator ts gt drained = Ok b ->
+    let c0 := cv (n_chain _ n) (n_ledger _ n) (pre_block (Some p) (par_hash p) creator ts gt drained) in
+    let kept := kept_pool c0 drained in
+    let cC := cv (n_chain _ n) (n_ledger _ n) (pre_block (Some p) (par_hash p) creator ts gt kept) in
     let cV := cv (n_chain _ n) (n_ledger _ n) b in
     agreesb dbg hchain cC cV = true ->
     cv_types_ok cC = true ->
     (c_fee_tx cC <> None -> gt <> None) ->
     (forall g, gt = Some g -> is_type TGoldenTicket g = true /\ gt_ok (n_chain _ n) g = true) ->
+    pool_types_ok drained = true ->
+    kept <> [] ->
+    count_type TIssuance drained = 0 ->
+    (v_stake_req (view (n_chain _ n)) = 0 \/ count_type TBlockStake kept = 1) ->
+    forallb (tx_valid (n_chain _ n) (n_ledger _ n)) (b_txs b) = true ->
+    work_needed (par_burnfee p) ts (par_ts p) (v_heartbeat (view (n_chain _ n))) <= nsum (map t_work kept) ->
+    validateM dbg n true b = Ok true.
+  Proof.
+    intros dbg n creator ts gt drained b p Htip Hcreate c0 kept cC cV Hag Hty Hfeegt Hgt Hpool Hne Hiss Hstake Hvalid Hwork.
+    assert (Hgt1 : forall g, gt = Some g -> is_type TGoldenTicket g = true) by (intros g Hg; apply (Hgt g Hg)).
+    rewrite (create_bridge dbg n creator ts gt drained p Htip Hgt1) in Hcreate. fold c0 kept in Hcreate.
+    eapply produced_validates; eauto.
+    - apply kept_pool_forallb. exact Hpool.
+    - pose proof (kept_pool_count TIssuance c0 drained). fold kept in H. lia.
+  Qed.
+
+  (* ---------------------------------------------------------------- bundle_block *)
+  Lemma screen_inv (n : nodeM) m gt gt' m0 :
+    screen_ticket chain view gt_ok n m gt = (gt', m0) ->
+    m_txs m0 = m_txs m /\ m_work m0 = m_work m /\ m_umap m0 = m_umap m
+    /\ (forall g, gt' = Some g -> gt = Some g /\ gt_ok (n_chain _ n) g = true /\ m0 = m)
+    /\ (gt' = None -> gt = None /\ m0 = m \/ exists g, gt = Some g /\ gt_ok (n_chain _ n) g = false /\ m0 = drop_ticket chain view n m g).
+  Proof.
+    unfold screen_ticket. destruct gt as [g|].
+    - destruct (gt_ok _ g) eqn:E; intros H; injection H as <- <-; cbn.
+      + split; [reflexivity|]. split; [reflexivity|]. split; [reflexivity|]. split.
+        * intros x Hx. injection Hx as <-. auto.
+        * intros Hx. discriminate Hx.
+      + split; [reflexivity|]. split; [reflexivity|]. split; [reflexivity|]. split.
+        * intros x Hx. discriminate Hx.
+        * intros _. right. exists g. auto.
+    - intros H; injection H as <- <-.
+      split; [reflexivity|]. split; [reflexivity|]. split; [reflexivity|]. split.
+      + intros x Hx. discriminate Hx.
+      + intros _. left. auto.
+  Qed.
+
+  Lemma bundle_inv dbg (n : nodeM) creator m ts gt stake order b m' p :
+    v_tip (view (n_chain _ n)) = Some p ->
+    bundleM dbg n creator m ts gt stake order = Ok (Bundled b, m') ->
+    exists gt' m0 w s m1,
+      screen_ticket chain view gt_ok n m gt = (gt', m0)
+      /\ can_bundleM n m0 ts (is_some gt') = Some w /\ stake = Some s /\ intakeM dbg n m0 s = Ok m1
+      /\ createF dbg n creator ts gt' (drain_in order (m_txs m1)) = Ok b
+      /\ m_gts m' = m_gts m0 /\ m_txs m' = [].
+  Proof.
+    intros Htip H. unfold bundle in H. rewrite Htip in H.
+    destruct (negb (par_ts p <? ts)); [discriminate|].
+    destruct (screen_ticket _ _ _ n m gt) as [gt' m0] eqn:Es.
+    destruct (can_bundle _ _ _ n m0 ts (is_some gt')) as [w|] eqn:Eg; [|discriminate].
+    destruct stake as [s|]; [|discriminate].
+    destruct (add_transaction_if_validates _ _ dbg n m0 s) as [m1| |s1] eqn:Ei; cbn [bind] in H; try discriminate.
+    destruct (create _ _ _ _ _ dbg n creator ts gt' _) as [b0| |s2] eqn:Ec; try discriminate.
+    injection H as <- <-. exists gt', m0, w, s, m1. cbn. repeat split; auto.
+    destruct (intake_txs dbg n m0 s m1 Ei) as [_ ->]. reflexivity.
+  Qed.
+
+  Theorem bundle_produced_validates : forall dbg (n : nodeM) creator m ts gt stake order b m' p,
+    v_tip (view (n_chain _ n)) = Some p ->
+    bundleM dbg n creator m ts gt stake order = Ok (Bundled b, m') ->
+    forall gt' m0 s m1,
+    screen_ticket chain view gt_ok n m gt = (gt', m0) ->
+    stake = Some s -> intakeM dbg n m0 s = Ok m1 ->
+    let drained := drain_in order (m_txs m1) in
+    let c0 := cv (n_chain _ n) (n_ledger _ n) (pre_block (Some p) (par_hash p) creator ts gt' drained) in
+    let kept := kept_pool c0 drained in
+    let cC := cv (n_chain _ n) (n_ledger _ n) (pre_block (Some p) (par_hash p) creator ts gt' kept) in
+    let cV := cv (n_chain _ n) (n_ledger _ n) b in
+    agreesb dbg hchain cC cV = true ->
+    cv_types_ok cC = true ->
+    (c_fee_tx cC <> None -> gt' <> None) ->
+    (forall g, gt = Some g -> is_type TGoldenTicket g = true) ->
     pool_types_ok (m_txs m1) = true ->
     count_type TIssuance (m_txs m1) = 0 ->
-    (v_stake_req (view (n_chain _ n)) = 0 \/ count_type TBlockStake (m_txs m1) = 1) ->
+    (v_stake_req (view (n_chain _ n)) = 0 \/ count_type TBlockStake kept = 1) ->
     forallb (tx_valid (n_chain _ n) (n_ledger _ n)) (b_txs b) = true ->
     m_work m <= nsum (map t_work (m_txs m)) ->
+    (* what create leaves out must not have been what carried the work, nor the whole pool *)
+    kept <> [] ->
+    nsum (map t_work (m_txs m1)) <= nsum (map t_work kept)
+      \/ work_needed (par_burnfee p) ts (par_ts p) (v_heartbeat (view (n_chain _ n))) <= nsum (map t_work kept) ->
     supply_ok (n_chain _ n) (n_ledger _ n) b = true ->
     acceptsM dbg n b = Ok true.
   Proof.
-    intros dbg n creator m ts gt stake order b m' p Htip Hb s m1 Hs Hi drained cC cV
-           Hag Hty Hfeegt Hgt Hpool Hiss Hstake Hvalid Hcache Hsupply.
+    intros dbg n creator m ts gt stake order b m' p Htip Hb gt' m0 s m1 Hsc Hs Hi drained c0 kept cC cV
+           Hag Hty Hfeegt Hgt Hpool Hiss Hstake Hvalid Hcache Hne Hkw Hsupply.
     destruct (bundle_inv dbg n creator m ts gt stake order b m' p Htip Hb)
-      as (w & s' & m1' & Hgate & Hs' & Hi' & Hcreate & _ & _).
+      as (gt2 & m02 & w & s' & m1' & Hsc' & Hgate & Hs' & Hi' & Hcreate & _ & _).
+    rewrite Hsc in Hsc'. injection Hsc' as <- <-.
     rewrite Hs in Hs'. injection Hs' as <-. rewrite Hi in Hi'. injection Hi' as <-.
     fold drained in Hcreate.
-    destruct (gate_inv n m ts (is_some gt) w p Htip Hgate) as (Hnil & _ & Hgtc & Hneed & _).
+    destruct (screen_inv n m gt gt' m0 Hsc) as (Htx0 & Hw0 & _ & Hsome & _).
+    destruct (gate_inv n m0 ts (is_some gt') w p Htip Hgate) as (Hnil & _ & Hgtc & Hneed & _).
     assert (Hperm : Permutation drained (m_txs m1)) by apply drain_perm.
-    assert (Hsup : nsum (map t_work (m_txs m)) <= nsum (map t_work (m_txs m1))).
-    { destruct (intake_txs dbg n m s m1 Hi) as [[->|[-> _]] _]; [lia|apply nsum_work_cons]. }
-    assert (Hne1 : m_txs m1 <> []).
-    { destruct (intake_txs dbg n m s m1 Hi) as [[->|[-> _]] _]; [|discriminate].
-      destruct (m_txs m); [discriminate|discriminate]. }
-    unfold node_accepts.
-    destruct (create_txs dbg n creator ts gt drained b p Htip Hcreate) as (Htxs & _ & _).
-    fold cC in Htxs.
-    assert (Hgt1 : forall g, gt = Some g -> is_type TGoldenTicket g = true) by (intros g Hg; apply (Hgt g Hg)).
+    assert (Hsup : nsum (map t_work (m_txs m0)) <= nsum (map t_work (m_txs m1))).
+    { destruct (intake_txs dbg n m0 s m1 Hi) as [[->|[-> _]] _]; [lia|apply nsum_work_cons]. }
+    assert (Hgt' : forall g, gt' = Some g -> is_type TGoldenTicket g = true /\ gt_ok (n_chain _ n) g = true).
+    { intros g Hg. destruct (Hsome g Hg) as (Hgg & Hok & _). split; [now apply Hgt|exact Hok]. }
+    assert (Hgt1 : forall g, gt' = Some g -> is_type TGoldenTicket g = true) by (intros g Hg; apply (Hgt' g Hg)).
+    assert (Hpool' : pool_types_ok drained = true).
+    { unfold pool_types_ok in *. rewrite (forallb_perm _ _ _ Hperm). exact Hpool. }
+    assert (Hcreate' := Hcreate).
+    rewrite (create_bridge dbg n creator ts gt' drained p Htip Hgt1) in Hcreate'. fold c0 kept in Hcreate'.
+    destruct (create_txs dbg n creator ts gt' kept b p Htip Hcreate') as (Htxs & _ & _). fold cC in Htxs.
     unfold cv_types_ok in Hty. rewrite andb_true_iff in Hty. destruct Hty as [Hatr Hfeety].
     assert (Hfee : forall f, c_fee_tx cC = Some f -> is_type TFee f = true).
     { intros f Hf. rewrite Hf in Hfeety. exact Hfeety. }
-    assert (Hpool' : pool_types_ok drained = true).
-    { unfold pool_types_ok in *. rewrite (forallb_perm _ _ _ Hperm). exact Hpool. }
-    assert (Hhas : has_gt b = is_some gt).
-    { unfold has_gt. rewrite Htxs. rewrite final_count_gt by assumption. destruct gt; reflexivity. }
-    rewrite Hhas, Hgtc. cbn [negb].
+    assert (Hpoolk : pool_types_ok kept = true) by (apply kept_pool_forallb; exact Hpool').
+    assert (Hhas : has_gt b = is_some gt').
+    { unfold has_gt. rewrite Htxs. rewrite final_count_gt by assumption. destruct gt'; reflexivity. }
+    unfold node_accepts. rewrite Hhas, Hgtc. cbn [negb].
     assert (Hv : validateM dbg n true b = Ok true); [|rewrite Hv; cbn [bind]; rewrite Hsupply; reflexivity].
-    apply produced_validates with (creator := creator) (ts := ts) (gt := gt) (drained := drained) (p := p); auto.
-    - unfold cv_types_ok. fold cC. rewrite Hatr. cbn [andb]. exact Hfeety.
-    - intros E. apply Hne1. apply Permutation_nil. rewrite <- E. exact Hperm.
+    apply produced_validates_F with (creator := creator) (ts := ts) (gt := gt') (drained := drained) (p := p); auto.
+    - unfold cv_types_ok. fold c0 kept cC. rewrite Hatr. cbn [andb]. exact Hfeety.
     - unfold count_type in *. rewrite (countb_perm _ _ _ Hperm). exact Hiss.
-    - destruct Hstake as [H|H]; [left; exact H|right]. unfold count_type in *. rewrite (countb_perm _ _ _ Hperm). exact H.
-    - rewrite (nsum_perm _ _ (Permutation_map t_work Hperm)). lia.
+    - fold c0 kept. destruct Hkw as [Hkw|Hkw]; [|exact Hkw].
+      rewrite Htx0, Hw0 in *. lia.
   Qed.
 
   (* the second node: Block::validate reads the chain (blocks, ring, block files) and the
@@ -558,15 +713,12 @@ Section Main.
   Proof.
     intros replay dbg [c l] [c2 l2] b; cbn. intros -> -> ->. reflexivity.
   Qed.
-
-  (* ---------------------------------------------------------------- the refuted class:
-     a pooled golden ticket whose solution does not validate *)
   Ltac step_if :=
     match goal with
     | |- (if ?c then _ else _) <> _ => destruct c; [discriminate|]
     end.
 
-  Theorem invalid_gt_rejected : forall dbg (n : nodeM) creator ts g drained b p vu,
+  Theorem invalid_gt_rejected_plain : forall dbg (n : nodeM) creator ts g drained b p vu,
     v_tip (view (n_chain _ n)) = Some p ->
     par_ghost p = false ->
     createM dbg n creator ts (Some g) drained = Ok b ->
@@ -598,144 +750,116 @@ Section Main.
     cbv iota beta. rewrite Hbad. cbn [bind]. discriminate.
   Qed.
 
-  (* the ticket stays selected: bundle_block never touches the ticket map, and
-     add_block_failure deletes under the hash of the failed block *)
-  Lemma pick_gt_del m_g tip h : h <> tip ->
-    find (fun x : N * tx => fst x =? tip) (del_gt h m_g) = find (fun x : N * tx => fst x =? tip) m_g.
-  Proof.
-    intros Hne. unfold del_gt. induction m_g as [|[k t] r IH]; cbn; [reflexivity|].
-    destruct (k =? h) eqn:E1; cbn.
-    - apply N.eqb_eq in E1. subst k. destruct (h =? tip) eqn:E2; [apply N.eqb_eq in E2; congruence|exact IH].
-    - destruct (k =? tip); [reflexivity|exact IH].
-  Qed.
 
-  Lemma add_all_gts dbg m l m1 : add_all dbg m l = Ok m1 -> m_gts m1 = m_gts m.
-  Proof.
-    revert m. induction l as [|t r IH]; cbn; intros m; [intros [= <-]; reflexivity|].
-    destruct (add_transaction dbg m t) as [m2| |s] eqn:E; cbn [bind]; try discriminate.
-    intros H. rewrite (IH m2 H). apply (add_transaction_txs dbg m t m2 E).
-  Qed.
-
-  Lemma add_all_types dbg m l m1 :
-    add_all dbg m l = Ok m1 -> pool_types_ok (m_txs m) = true -> forallb pool_tx_ok l = true ->
-    pool_types_ok (m_txs m1) = true.
-  Proof.
-    revert m. induction l as [|t r IH]; cbn; intros m; [intros [= <-]; auto|].
-    destruct (add_transaction dbg m t) as [m2| |s] eqn:E; cbn [bind]; try discriminate.
-    rewrite andb_true_iff. intros H Hm [Ht Hr]. apply (IH m2 H); [|exact Hr].
-    destruct (add_transaction_txs dbg m t m2 E) as [[->|[-> _]] _]; [exact Hm|].
-    unfold pool_types_ok; cbn. now rewrite Ht.
-  Qed.
-
-  Lemma normal_pool_ok t : is_type TNormal t = true -> pool_tx_ok t = true.
-  Proof.
-    intros H. unfold pool_tx_ok.
-    rewrite (is_type_other TNormal TGoldenTicket t H), (is_type_other TNormal TFee t H),
-            (is_type_other TNormal TATR t H) by discriminate. reflexivity.
-  Qed.
-
-  Lemma after_failure_inv dbg (n : nodeM) m h mine b m1 tip :
-    after_failure chain tx_valid dbg n m h mine b = Ok m1 -> h <> tip ->
-    pool_types_ok (m_txs m) = true ->
-    pick_gt m1 tip = pick_gt m tip /\ pool_types_ok (m_txs m1) = true.
-  Proof.
-    unfold after_failure. intros H Hne Hp. destruct mine.
-    - destruct (add_all dbg _ _) as [m2| |s] eqn:E; cbn [bind] in H; try discriminate.
-      injection H as <-. cbn [m_gts m_txs]. split.
-      + unfold pick_gt. cbn [m_gts]. rewrite (add_all_gts _ _ _ _ E). cbn [m_gts].
-        now rewrite pick_gt_del.
-      + apply (add_all_types _ _ _ _ E); [exact Hp|].
-        rewrite forallb_forall. intros t Ht. apply filter_In in Ht. destruct Ht as [_ Ht].
-        rewrite andb_true_iff in Ht. apply normal_pool_ok. apply Ht.
-    - injection H as <-. cbn [m_gts m_txs]. split; [|exact Hp].
-      unfold pick_gt. cbn [m_gts]. now rewrite pick_gt_del.
-  Qed.
-
-  (* one timer tick of the consensus thread: bundle with the ticket the pool holds for the
-     tip; an own block that the node rejects goes through add_block_failure.
-     Result: was a block accepted, and the pool afterwards. *)
-  Definition tick (dbg : bool) (n : nodeM) (creator tip : N) (m : mpool)
-             (a : N * option tx * list N * N) : res (bool * mpool) :=
-    let '(ts, stake, order, block_hash) := a in
-    match bundleM dbg n creator m ts (pick_gt m tip) stake order with
-    | Ok (Bundled b, m') =>
-        match acceptsM dbg n b with
-        | Ok true => Ok (true, m')
-        | Ok false => do m2 <- after_failure chain tx_valid dbg n m' block_hash true b; Ok (false, m2)
-        | Err => Err
-        | Panic s => Panic s
-        end
-    | Ok (_, m') => Ok (false, m')
-    | Err => Err
-    | Panic s => Panic s
-    end.
-
-  Fixpoint ticks (dbg : bool) (n : nodeM) (creator tip : N) (m : mpool)
-           (l : list (N * option tx * list N * N)) : res (bool * mpool) :=
-    match l with
-    | [] => Ok (false, m)
-    | a :: r =>
-        do x <- tick dbg n creator tip m a;
-        if fst x then Ok x else ticks dbg n creator tip (snd x) r
-    end.
-
-  Lemma bundle_keeps dbg (n : nodeM) creator m ts gt stake order out m' :
-    bundleM dbg n creator m ts gt stake order = Ok (out, m') ->
-    pool_types_ok (m_txs m) = true ->
-    m_gts m' = m_gts m /\ pool_types_ok (m_txs m') = true.
-  Proof.
-    intros H Hp. unfold bundle in H.
-    destruct (negb _); [injection H as <- <-; auto|].
-    destruct (can_bundle _ _ _ n m ts (is_some gt)); [|injection H as <- <-; auto].
-    destruct stake as [s|]; [|injection H as <- <-; auto].
-    destruct (add_transaction_if_validates _ _ dbg n m s) as [m1| |s1] eqn:Ei; cbn [bind] in H; try discriminate.
-    destruct (intake_txs dbg n m s m1 Ei) as [_ Hg].
-    destruct (create _ _ _ _ _ dbg n creator ts gt _) as [b0| |s2]; try discriminate;
-      injection H as <- <-; cbn [m_gts m_txs]; auto.
-  Qed.
-
-  Theorem invalid_gt_stuck : forall dbg (n : nodeM) creator p g,
+  (* the same for Block::create as it is (with the filter) *)
+  Theorem invalid_gt_rejected : forall dbg (n : nodeM) creator ts g drained b p vu,
     v_tip (view (n_chain _ n)) = Some p ->
     par_ghost p = false ->
+    createF dbg n creator ts (Some g) drained = Ok b ->
     is_type TGoldenTicket g = true ->
     gt_ok (n_chain _ n) g = false ->
+    pool_types_ok drained = true ->
     (forall b0, cv_types_ok (cv (n_chain _ n) (n_ledger _ n) b0) = true) ->
-    forall attempts m r m_end,
-      pick_gt m (par_hash p) = Some g ->
-      pool_types_ok (m_txs m) = true ->
-      Forall (fun a : N * option tx * list N * N => snd a <> par_hash p) attempts ->
-      ticks dbg n creator (par_hash p) m attempts = Ok (r, m_end) ->
-      r = false /\ pick_gt m_end (par_hash p) = Some g.
+    validateM dbg n vu b <> Ok true.
   Proof.
-    intros dbg n creator p g Htip Hghost Hg Hbad Hcvty attempts.
-    induction attempts as [|a rest IH]; intros m r m_end Hpick Hp Hne H.
-    - cbn in H. injection H as <- <-. auto.
-    - cbn [ticks] in H. inversion Hne as [|? ? Ha Hrest]; subst.
-      destruct a as [[[ts stake] order] bh]. cbn [snd] in Ha.
-      unfold tick in H. rewrite Hpick in H.
-      destruct (bundle _ _ _ _ _ _ _ dbg n creator m ts (Some g) stake order) as [[out m']| |s] eqn:Eb;
-        cbn [bind] in H; try discriminate.
-      destruct (bundle_keeps dbg n creator m ts (Some g) stake order out m' Eb Hp) as [Hg' Hp'].
-      assert (Hpick' : pick_gt m' (par_hash p) = Some g) by (unfold pick_gt in *; now rewrite Hg').
-      destruct out as [| | |b]; cbn [bind fst snd] in H; try (apply (IH m' r m_end); assumption).
-      destruct (bundle_inv dbg n creator m ts (Some g) stake order b m' p Htip Eb)
-        as (w & s & m1 & _ & _ & Hi & Hcreate & _ & _).
-      assert (Hpool1 : pool_types_ok (drain_in order (m_txs m1)) = true).
-      { unfold pool_types_ok. rewrite (forallb_perm _ _ _ (drain_perm order (m_txs m1))).
-        destruct (intake_txs dbg n m s m1 Hi) as [[->|[-> Hs]] _]; [exact Hp|].
-        cbn. rewrite Hs. exact Hp. }
-      assert (Hrej : acceptsM dbg n b <> Ok true).
-      { unfold node_accepts. destruct (negb _); [discriminate|].
-        assert (Hv : validateM dbg n true b <> Ok true) by (eapply invalid_gt_rejected; eauto).
-        destruct (validate _ _ _ _ _ _ _ dbg n true b) as [[|]| |s1]; cbn [bind]; try discriminate.
-        congruence. }
-      destruct (node_accepts _ _ _ _ _ _ _ _ dbg n b) as [[|]| |s1] eqn:Ea; cbn [bind] in H; try discriminate.
-      + congruence.
-      + destruct (after_failure _ _ dbg n m' bh true b) as [m2| |s2] eqn:Eaf; cbn [bind fst snd] in H; try discriminate.
-        destruct (after_failure_inv dbg n m' bh true b m2 (par_hash p) Eaf Ha Hp') as [Hk Hp2].
-        apply (IH m2 r m_end); try assumption. now rewrite Hk.
+    intros dbg n creator ts g drained b p vu Htip Hghost Hcreate Hg Hbad Hpool Hty.
+    assert (Hgt1 : forall g0, Some g = Some g0 -> is_type TGoldenTicket g0 = true) by (intros g0 [= <-]; exact Hg).
+    rewrite (create_bridge dbg n creator ts (Some g) drained p Htip Hgt1) in Hcreate.
+    eapply invalid_gt_rejected_plain; eauto. apply kept_pool_forallb. exact Hpool.
   Qed.
 
+  (* ---------------------------------------------------------------- fix e0300b2: the producer recovers *)
+  Theorem bad_ticket_dropped : forall dbg (n : nodeM) creator m ts g stake order,
+    (match v_tip (view (n_chain _ n)) with Some p => par_ts p | None => 0 end) < ts ->
+    gt_ok (n_chain _ n) g = false ->
+    bundleM dbg n creator m ts (Some g) stake order
+    = bundleM dbg n creator (drop_ticket chain view n m g) ts None stake order.
+  Proof.
+    intros dbg n creator m ts g stake order Hts Hbad. unfold bundle.
+    assert (E : negb ((match v_tip (view (n_chain _ n)) with Some p => par_ts p | None => 0 end) <? ts) = false).
+    { apply negb_false_iff. now apply N.ltb_lt. }
+    rewrite E. unfold screen_ticket. rewrite Hbad. reflexivity.
+  Qed.
+
+  Lemma find_del_gt_same h (l : list (N * tx)) : find (fun x : N * tx => fst x =? h) (del_gt h l) = None.
+  Proof.
+    unfold del_gt. induction l as [|[k t] r IH]; cbn; [reflexivity|].
+    destruct (k =? h) eqn:E; cbn; [exact IH|]. now rewrite E.
+  Qed.
+
+  Lemma find_del_gt_other h h' (l : list (N * tx)) :
+    find (fun x : N * tx => fst x =? h) l = None ->
+    find (fun x : N * tx => fst x =? h) (del_gt h' l) = None.
+  Proof.
+    unfold del_gt. induction l as [|[k t] r IH]; cbn; [reflexivity|].
+    destruct (k =? h) eqn:E; [discriminate|]. intros H. destruct (k =? h'); cbn; [auto|]. rewrite E. auto.
+  Qed.
+
+  Lemma drop_ticket_unpicks (n : nodeM) m g : pick_gt (drop_ticket chain view n m g) (tip_hash_of chain view n) = None.
+  Proof.
+    unfold pick_gt, drop_ticket. cbn [m_gts].
+    rewrite find_del_gt_other; [reflexivity|apply find_del_gt_same].
+  Qed.
+
+  Lemma bundle_keeps dbg (n : nodeM) creator m ts gt stake order out m' gt' m0 :
+    (match v_tip (view (n_chain _ n)) with Some p => par_ts p | None => 0 end) < ts ->
+    screen_ticket chain view gt_ok n m gt = (gt', m0) ->
+    bundleM dbg n creator m ts gt stake order = Ok (out, m') ->
+    m_gts m' = m_gts m0.
+  Proof.
+    intros Hts Hsc H. unfold bundle in H.
+    assert (E : negb ((match v_tip (view (n_chain _ n)) with Some p => par_ts p | None => 0 end) <? ts) = false).
+    { apply negb_false_iff. now apply N.ltb_lt. }
+    rewrite E, Hsc in H.
+    destruct (can_bundle _ _ _ n m0 ts (is_some gt')); [|injection H as <- <-; auto].
+    destruct stake as [s|]; [|injection H as <- <-; auto].
+    destruct (add_transaction_if_validates _ _ dbg n m0 s) as [m1| |s1] eqn:Ei; cbn [bind] in H; try discriminate.
+    destruct (intake_txs dbg n m0 s m1 Ei) as [_ Hg].
+    destruct (create _ _ _ _ _ dbg n creator ts gt' _) as [b0| |s2]; try discriminate;
+      injection H as <- <-; cbn [m_gts]; auto.
+  Qed.
+
+  (* a pooled ticket for the tip that does not solve it: ONE call of bundle_block (with the
+     clock after the tip) removes it, whatever else the call does; a block that comes out is
+     built without a ticket and is judged like any other block (bundle_produced_validates);
+     the next tick finds no ticket for the tip *)
+  Theorem producer_recovers : forall dbg (n : nodeM) creator m ts g stake order out m',
+    (match v_tip (view (n_chain _ n)) with Some p => par_ts p | None => 0 end) < ts ->
+    pick_gt m (tip_hash_of chain view n) = Some g ->
+    gt_ok (n_chain _ n) g = false ->
+    bundleM dbg n creator m ts (pick_gt m (tip_hash_of chain view n)) stake order = Ok (out, m') ->
+    pick_gt m' (tip_hash_of chain view n) = None
+    /\ bundleM dbg n creator (drop_ticket chain view n m g) ts None stake order = Ok (out, m').
+  Proof.
+    intros dbg n creator m ts g stake order out m' Hts Hpick Hbad H. rewrite Hpick in H.
+    split.
+    - assert (Hsc : screen_ticket chain view gt_ok n m (Some g) = (None, drop_ticket chain view n m g)).
+      { unfold screen_ticket. now rewrite Hbad. }
+      unfold pick_gt. rewrite (bundle_keeps dbg n creator m ts (Some g) stake order out m' None _ Hts Hsc H).
+      apply drop_ticket_unpicks.
+    - rewrite <- H. symmetry. now apply bad_ticket_dropped.
+  Qed.
+
+  (* a ticket that reaches Block::create through bundle_block solves the tip *)
+  Theorem bundled_ticket_solves : forall dbg (n : nodeM) creator m ts gt stake order b m' p g,
+    v_tip (view (n_chain _ n)) = Some p ->
+    bundleM dbg n creator m ts gt stake order = Ok (Bundled b, m') ->
+    fst (screen_ticket chain view gt_ok n m gt) = Some g ->
+    gt = Some g /\ gt_ok (n_chain _ n) g = true.
+  Proof.
+    intros dbg n creator m ts gt stake order b m' p g Htip Hb Hs.
+    destruct (screen_ticket chain view gt_ok n m gt) as [gt' m0] eqn:E. cbn in Hs. subst gt'.
+    destruct (screen_inv n m gt (Some g) m0 E) as (_ & _ & _ & H & _).
+    destruct (H g eq_refl) as (H1 & H2 & _). auto.
+  Qed.
+
+  (* ---------------------------------------------------------------- fix 9879695 *)
+  Theorem foreign_stake_refused : forall dbg (n : nodeM) m t,
+    is_type TBlockStake t = true -> t_own t = false -> intakeM dbg n m t = Ok m.
+  Proof.
+    intros dbg n m t Ht Ho. unfold add_transaction_if_validates.
+    destruct (producer_only t); [reflexivity|]. now rewrite Ht, Ho.
+  Qed.
   (* ---------------------------------------------------------------- agreesb, field by field *)
   Theorem agreesb_fields : forall dbg cC cV,
     agreesb dbg hchain cC cV = true <->
@@ -792,35 +916,38 @@ Section Main.
         destruct Hft as (f' & -> & E). now apply N.eqb_eq.
   Qed.
 
+
   (* ---------------------------------------------------------------- outside the listed classes *)
-  Notation KnownM := (Known_C07 chain view cv tx_valid gt_ok hchain).
+  Notation KnownM := (Known_C07 chain view cv tx_valid hchain).
 
   Theorem produced_validates_outside_known : forall dbg (n : nodeM) creator ts gt drained b p,
     v_tip (view (n_chain _ n)) = Some p ->
-    createM dbg n creator ts gt drained = Ok b ->
+    createF dbg n creator ts gt drained = Ok b ->
     KnownM dbg n creator ts gt drained b = false ->
-    let cC := cv (n_chain _ n) (n_ledger _ n) (pre_block (Some p) (par_hash p) creator ts gt drained) in
+    let c0 := cv (n_chain _ n) (n_ledger _ n) (pre_block (Some p) (par_hash p) creator ts gt drained) in
+    let kept := kept_pool c0 drained in
+    let cC := cv (n_chain _ n) (n_ledger _ n) (pre_block (Some p) (par_hash p) creator ts gt kept) in
     cv_types_ok cC = true ->
     (c_fee_tx cC <> None -> gt <> None) ->
-    (forall g, gt = Some g -> is_type TGoldenTicket g = true) ->
+    (forall g, gt = Some g -> is_type TGoldenTicket g = true /\ gt_ok (n_chain _ n) g = true) ->
     pool_types_ok drained = true ->
-    drained <> [] ->
-    work_needed (par_burnfee p) ts (par_ts p) (v_heartbeat (view (n_chain _ n))) <= nsum (map t_work drained) ->
+    kept <> [] ->
+    (v_stake_req (view (n_chain _ n)) = 0 \/ count_type TBlockStake kept = 1) ->
+    work_needed (par_burnfee p) ts (par_ts p) (v_heartbeat (view (n_chain _ n))) <= nsum (map t_work kept) ->
     validateM dbg n true b = Ok true.
   Proof.
-    intros dbg n creator ts gt drained b p Htip Hcreate Hk cC Hty Hfeegt Hgt Hpool Hne Hwork.
-    unfold Known_C07 in Hk. rewrite Htip in Hk. cbv zeta in Hk. fold cC in Hk.
-    rewrite !orb_false_iff in Hk. destruct Hk as [[[[K1 K2] K3] K4] K5].
+    intros dbg n creator ts gt drained b p Htip Hcreate Hk c0 kept cC Hty Hfeegt Hgt Hpool Hne Hstake Hwork.
+    assert (Hgt1 : forall g, gt = Some g -> is_type TGoldenTicket g = true) by (intros g Hg; apply (Hgt g Hg)).
+    unfold Known_C07 in Hk. cbv zeta in Hk.
+    rewrite (create_pre_eq n creator ts gt drained p Htip Hgt1) in Hk. cbn [fst snd] in Hk.
+    fold c0 kept cC in Hk.
+    rewrite !orb_false_iff in Hk. destruct Hk as [[K1 K2] K4].
     apply negb_false_iff in K1, K2.
-    eapply produced_validates; eauto.
-    - intros g Hg. split; [now apply Hgt|]. rewrite Hg in K3. now apply negb_false_iff in K3.
-    - apply N.ltb_ge in K4. lia.
-    - rewrite andb_false_iff, !negb_false_iff, !N.eqb_eq in K5. exact K5.
+    apply produced_validates_F with (creator := creator) (ts := ts) (gt := gt) (drained := drained) (p := p); auto.
+    apply N.ltb_ge in K4. lia.
   Qed.
 
-  (* ---------------------------------------------------------------- two more ways of not producing *)
-  (* timestamp not after the tip's: bundle_block declines (`return None`), the pool is untouched;
-     in particular no panic on timestamp order (fix f62222f) *)
+  (* ---------------------------------------------------------------- ways of not producing *)
   Theorem bundle_ts_declines : forall dbg (n : nodeM) creator m ts gt stake order p,
     v_tip (view (n_chain _ n)) = Some p -> ts <= par_ts p ->
     bundleM dbg n creator m ts gt stake order = Ok (GateClosed, m).
@@ -829,33 +956,21 @@ Section Main.
     assert (E : (par_ts p <? ts) = false) by (apply N.ltb_ge; exact Hle). now rewrite E.
   Qed.
 
-  Theorem create_failure_drains : forall dbg (n : nodeM) creator m ts gt s order w m1,
-    (match v_tip (view (n_chain _ n)) with Some p => par_ts p | None => 0 end) < ts ->
-    can_bundleM n m ts (is_some gt) = Some w ->
-    intakeM dbg n m s = Ok m1 ->
-    createM dbg n creator ts gt (drain_in order (m_txs m1)) = Err ->
-    exists m', bundleM dbg n creator m ts gt (Some s) order = Ok (CreateFailed, m')
-               /\ m_txs m' = [] /\ m_work m' = 0.
-  Proof.
-    intros dbg n creator m ts gt s order w m1 Hts Hgate Hi Hc. unfold bundle.
-    assert (E : negb ((match v_tip (view (n_chain _ n)) with Some p => par_ts p | None => 0 end) <? ts) = false).
-    { apply negb_false_iff. now apply N.ltb_lt. }
-    rewrite E, Hgate, Hi. cbn [bind]. rewrite Hc. eexists. repeat split.
-  Qed.
-
+  (* Block::create fails only through its double-spend detection; it then hands back what it
+     had drained and not left out, and bundle_block rebuilds reservations and the work cache *)
   Lemma uadd_not_err dbg a b : uadd dbg a b <> Err.
   Proof. unfold uadd. destruct (_ <? two64); [discriminate|]. destruct dbg; discriminate. Qed.
   Lemma usub_not_err dbg a b : usub dbg a b <> Err.
   Proof. unfold usub. destruct (_ <=? _); [discriminate|]. destruct dbg; discriminate. Qed.
 
-  Lemma create_err_is_double_spend : forall dbg (n : nodeM) creator ts gt drained,
+  Lemma create_err_is_double_spend_plain : forall dbg (n : nodeM) creator ts gt drained,
     createM dbg n creator ts gt drained = Err ->
     let v := view (n_chain _ n) in
     let tip_hash := match v_tip v with Some p => par_hash p | None => 0 end in
     let cC := cv (n_chain _ n) (n_ledger _ n) (pre_block (v_tip v) tip_hash creator ts gt drained) in
     dup_spend ((opt_list gt ++ drained) ++ c_rebroadcasts cC ++ opt_list (c_fee_tx cC)) = true.
   Proof.
-    intros dbg n creator ts gt drained H. cbv zeta. unfold create in H. cbv zeta in H.
+    intros dbg n creator ts gt drained H. cbv zeta. unfold create_plain, create_from, tip_hash_of in H. cbv zeta in H.
     do 4 (match type of H with
           | bind ?r _ = _ =>
               let E := fresh "E" in
@@ -865,5 +980,44 @@ Section Main.
                 |cbn [bind] in H; discriminate]
           end).
     cbn [b_txs pre_block] in H. destruct (dup_spend _) eqn:Ed; [reflexivity|discriminate].
+  Qed.
+
+  Theorem create_err_is_double_spend : forall dbg (n : nodeM) creator ts gt drained p,
+    v_tip (view (n_chain _ n)) = Some p ->
+    (forall g, gt = Some g -> is_type TGoldenTicket g = true) ->
+    createF dbg n creator ts gt drained = Err ->
+    let c0 := cv (n_chain _ n) (n_ledger _ n) (pre_block (Some p) (par_hash p) creator ts gt drained) in
+    let kept := kept_pool c0 drained in
+    let cC := cv (n_chain _ n) (n_ledger _ n) (pre_block (Some p) (par_hash p) creator ts gt kept) in
+    dup_spend ((opt_list gt ++ kept) ++ c_rebroadcasts cC ++ opt_list (c_fee_tx cC)) = true
+    /\ (c_rebroadcasts c0 <> [] ->
+        forall t, In t kept -> is_type TGoldenTicket t = true \/ collides (rb_inputs c0) t = false).
+  Proof.
+    intros dbg n creator ts gt drained p Htip Hgt H c0 kept cC.
+    rewrite (create_bridge dbg n creator ts gt drained p Htip Hgt) in H. fold c0 kept in H.
+    split.
+    - pose proof (create_err_is_double_spend_plain dbg n creator ts gt kept H) as Hd. cbv zeta in Hd.
+      unfold tip_hash_of in Hd. rewrite Htip in Hd. exact Hd.
+    - intros Hne t Ht. eapply kept_pool_no_collision; eauto.
+  Qed.
+
+  Theorem create_failure_restores : forall dbg (n : nodeM) creator m ts gt stake order m',
+    bundleM dbg n creator m ts gt stake order = Ok (CreateFailed, m') ->
+    exists gt' m0 s m1,
+      screen_ticket chain view gt_ok n m gt = (gt', m0) /\ stake = Some s /\ intakeM dbg n m0 s = Ok m1
+      /\ m_txs m' = handed_back chain view cv n creator ts gt' (drain_in order (m_txs m1))
+      /\ m_work m' = nsum (map t_work (m_txs m'))
+      /\ m_umap m' = flat_map t_inputs (m_txs m')
+      /\ m_gts m' = m_gts m0.
+  Proof.
+    intros dbg n creator m ts gt stake order m' H. unfold bundle in H.
+    destruct (negb _); [discriminate|].
+    destruct (screen_ticket _ _ _ n m gt) as [gt' m0] eqn:Es.
+    destruct (can_bundle _ _ _ n m0 ts (is_some gt')); [|discriminate].
+    destruct stake as [s|]; [|discriminate].
+    destruct (add_transaction_if_validates _ _ dbg n m0 s) as [m1| |s1] eqn:Ei; cbn [bind] in H; try discriminate.
+    destruct (create _ _ _ _ _ dbg n creator ts gt' _) as [b0| |s2]; try discriminate.
+    injection H as <-. exists gt', m0, s, m1. cbn. repeat split; auto.
+    apply (intake_txs dbg n m0 s m1 Ei).
   Qed.
 End Main.
